@@ -43,7 +43,7 @@ func init() {
 		Run: run,
 		Floors: func(t string) map[string]int64 {
 			return map[string]int64{"spelling.esri": 5000, "spelling.ogc": 1000, "section_order.unit_before_parameters": 1000, "unit.foot": 1000, "unit.us_foot": 1000, "towgs84.3": 1000, "towgs84.7": 1000, "towgs84.none": 1000,
-				"proj.merc": 300, "proj.lcc": 300, "proj.aea": 300, "proj.eqdc": 300, "proj.tmerc": 300, "proj.longlat": 300, "registry.names": 100, "registry.equal_pairs": 500, "registry.unequal_pairs": 300, "registry.prj_files": 50, "twin.negated": 2000, "names.short_empty_or_unusual": 1000, "twin.nudged": 1000}
+				"proj.merc": 300, "proj.lcc": 300, "proj.aea": 300, "proj.eqdc": 300, "proj.tmerc": 300, "proj.longlat": 300, "registry.names": 100, "registry.equal_pairs": 500, "registry.unequal_pairs": 300, "registry.prj_files": 50, "twin.negated": 2000, "names.short_empty_or_unusual": 1000, "wkt.authority_on_nested_objects": 1000, "twin.nudged": 1000}
 		},
 	})
 }
@@ -61,6 +61,7 @@ type sys struct {
 	ogc          bool
 	unitFirst    bool
 	pretty       bool
+	nestedAuthority bool // GDAL style: AUTHORITY nodes on the nested objects (GEOGCS = EPSG:4326)
 	oddNames     bool // a WKT name other than the usual ESRI-style one (short, empty, bare prefix, blanks, non-ASCII)
 }
 
@@ -97,6 +98,15 @@ func genSys(r *crsgen.R) *sys {
 		tw, tw4, s.towgs = ",TOWGS84["+strings.Join(p, ",")+"]", " +towgs84="+strings.Join(p, ","), 7
 	}
 	geog := `GEOGCS["` + gcsName + `",DATUM["` + datName + `",` + sph + tw + `],PRIMEM["Greenwich",0.0],UNIT["Degree",0.0174532925199433]]`
+	if r.Chance(0.15) {
+		// the way GDAL writes a user-defined grid on WGS 84: every nested object carries its EPSG
+		// AUTHORITY (the geographic system is EPSG:4326), the projected system itself has none
+		// unless the trailer below adds one
+		geog = `GEOGCS["WGS 84",DATUM["WGS_1984",SPHEROID["WGS 84",6378137,298.257223563,AUTHORITY["EPSG","7030"]],AUTHORITY["EPSG","6326"]],PRIMEM["Greenwich",0,AUTHORITY["EPSG","8901"]],UNIT["degree",0.0174532925199433,AUTHORITY["EPSG","9122"]],AUTHORITY["EPSG","4326"]]`
+		ell4, tw4, tw = " +datum=WGS84", "", ""
+		s.towgs = 3 // a known datum: compared from a fresh WGS84 source
+		s.nestedAuthority = true
+	}
 	s.geoWKT = geog
 	s.geo4 = "+proj=longlat" + ell4 + tw4 + " +no_defs"
 	unitWKT, unit4 := `UNIT["Meter",1.0]`, ""
@@ -296,6 +306,9 @@ func runSpelling(c *core.Ctx) {
 	}
 	if s.oddNames {
 		c.Count("names.short_empty_or_unusual")
+	}
+	if s.nestedAuthority {
+		c.Count("wkt.authority_on_nested_objects")
 	}
 	switch s.towgs {
 	case 0:
